@@ -205,3 +205,35 @@ pub fn hash_on_placement(pcs: [[u64; 6]; 2]) {
     kani::cover!(p.ep < 64);
     std::mem::forget(g);
 }
+
+/// the component LOOK-UP FUNCTIONS are injective over all features and never return zero (real tables loaded):
+/// two different features (piece-on-square / castling right / en-passant square or none / side) get different words.
+/// (The z3 query on the dumped words says the table cells differ; this says the functions that index the tables do not alias.)
+fn feature_word(fam: u8, a: u8, b: u8, c: u8) -> u64 {
+    match fam {
+        0 => za::c_piece(pos::player_of((a % 2) as usize), pos::kind_of((b % 6) as usize), Square::from_index(c % 64)),
+        1 => za::c_castle(pos::player_of((a % 2) as usize), if b % 2 == 0 { CastleRightsSide::Kingside } else { CastleRightsSide::Queenside }),
+        2 => za::c_ep(if c % 65 == 64 { None } else { Some(Square::from_index(c % 65)) }),
+        _ => za::c_side(),
+    }
+}
+fn feature_id(fam: u8, a: u8, b: u8, c: u8) -> u32 {
+    match fam {
+        0 => ((a % 2) as u32) * 384 + ((b % 6) as u32) * 64 + (c % 64) as u32,
+        1 => 1000 + ((a % 2) as u32) * 2 + (b % 2) as u32,
+        2 => 2000 + (c % 65) as u32,
+        _ => 3000,
+    }
+}
+#[kani::proof]
+pub fn c03_lookup_injective() {
+    load();
+    let (f1, a1, b1, c1): (u8, u8, u8, u8) = (kani::any(), kani::any(), kani::any(), kani::any());
+    let (f2, a2, b2, c2): (u8, u8, u8, u8) = (kani::any(), kani::any(), kani::any(), kani::any());
+    kani::assume(f1 < 4 && f2 < 4);
+    #[cfg(test)] println!("REPLAY-CASE {{\"f1\":[{},{},{},{}],\"f2\":[{},{},{},{}]}}", f1, a1, b1, c1, f2, a2, b2, c2);
+    let (w1, w2) = (feature_word(f1, a1, b1, c1), feature_word(f2, a2, b2, c2));
+    assert!(w1 != 0 && w2 != 0);
+    if feature_id(f1, a1, b1, c1) != feature_id(f2, a2, b2, c2) { assert!(w1 != w2); }
+    kani::cover!(f1 == 0 && f2 == 2);
+}
